@@ -27,7 +27,8 @@ ID = "C11"
 LEVEL = "exploration"
 ROOT = Path(__file__).resolve().parent.parent
 CANARY = "/verif/build/c11-canary"
-TIME_LIMIT = 2.0
+TIME_LIMIT = 2.0    # CPU seconds one transpilation may take
+HARD_KILL_S = 20.0  # wall-clock seconds after which the child interpreter is killed (reported as 'timeout')
 
 IMPORTS = (
     "from Reduino import target\n"
@@ -102,6 +103,7 @@ STRESS = [
     _DOTTED, _DOTTED + " or TimeoutError", _DOTTED + "() as err2", _DOTTED + ", " + _DOTTED, "(" + _DOTTED + ", ValueError)", _DOTTED + "[0]", _DOTTED + " if q else " + _DOTTED,
     "a" * 5000, "a " * 2000, "a, " * 1500 + "a", "a." * 400 + "a", "(" * 40 + "1" + ")" * 40, "[" * 40 + "1" + "]" * 40, '"' + "a" * 20000 + '"', "'" + "\\'" * 500 + "'",
     "q" + " and q" * 800, "-" * 3000 + "1", "-" * 100000 + "1", "not " * 1000 + "q", "q" + " if q else q" * 300, "q" + ".real" * 600, "q" + "[0]" * 600, "f(" * 100 + "1" + ")" * 100,
+    "q" + " " * 80000 + "+ 1", "q +" + " " * 80000 + "1", "(q" + " " * 80000 + ")", "a." * 3000 + "a", "a" + "\t" * 60000,
     "lambda: " * 200 + "1", "1" + " < 2" * 1500, "q" + " " * 20000 + "+ 1", "q" + "\t" * 5000 + "+ 1", "1 +" + " \\\n" * 300 + "1", "x" * 200 + "=" * 200, ":" * 300, "#" * 5000, "1" + "e1" * 300,
     "\"" * 999, "'" * 999, "f\"" + "{q}" * 2000 + "\"", "f\"" + "{" * 60 + "q" + "}" * 60 + "\"", "q" + " == q" * 1000, "*" * 500 + "q", "~" * 5000 + "1", "q" + ",q" * 5000,
 ]
@@ -182,8 +184,10 @@ def classify(case: dict, rec: dict) -> Optional[str]:
             return f"SyntaxError raised for text that IS valid Python: {rec.get('detail')}"
     if rec.get("events"):
         return f"host-side effect / user code execution during transpilation: {rec['events']}"
-    if rec.get("wall", 0) > TIME_LIMIT:
-        return f"took {rec['wall']}s (> {TIME_LIMIT}s)"
+    # "promptly" is judged on the CPU time of the transpilation itself (the wall clock of a loaded machine is not the
+    # transpiler's doing); the wall clock only bounds the hard kill
+    if rec.get("cpu", rec.get("wall", 0)) > TIME_LIMIT:
+        return f"took {rec.get('cpu', rec.get('wall'))}s of CPU time (> {TIME_LIMIT}s)"
     if rec.get("state_changed"):
         return "module-level state of the transpiler changed"
     if rec.get("env_dependent"):
@@ -203,7 +207,7 @@ def main(tier: str, seed: int, only=None) -> int:
     for i, c in enumerate(cases):
         c["id"] = f"{c['id']}#{i}"
         by_id[c["id"]] = c
-    results = sandbox.run("checks.c11_worker", cases, lanes=14, timeout=6.0, mem_mb=3072)
+    results = sandbox.run("checks.c11_worker", cases, lanes=14, timeout=HARD_KILL_S, mem_mb=3072)
     for rec in results:
         case = by_id[rec["id"]]
         report.evaluations += 1
@@ -234,7 +238,7 @@ def replay(path: str) -> int:
     case = data["case"]
     verdicts = []
     for _ in range(2):
-        rec = sandbox.run("checks.c11_worker", [dict(case)], lanes=1, timeout=6.0, mem_mb=3072)[0]
+        rec = sandbox.run("checks.c11_worker", [dict(case)], lanes=1, timeout=HARD_KILL_S, mem_mb=3072)[0]
         verdicts.append(classify(case, rec))
     print("replay:", verdicts[0])
     if bool(verdicts[0]) != bool(verdicts[1]):
